@@ -31,8 +31,9 @@ TECHNIQUE = "decision-table extraction by abstract evaluation of pad / Grid.__in
 LEVEL_TEXT = (
     "Abstract interpretation of the source for every spelling of the arguments: the rule and fill value that reach the basic padding are the "
     "per-call value for the axes it names, else the axis default; the constructor turns periodic (bool/list/mapping) and boundary/fill_value "
-    "(None/scalar/total/partial mapping) into exactly the per-axis settings the property states; _pad_basic issues one xarray.pad per axis with the "
-    "requested (lower, upper) pair and the mode wrap/constant(+fill value)/edge; pad returns the input only when every width is (0, 0). This decides "
+    "(None/scalar/total/partial mapping) into exactly the per-axis settings the property states; _pad_basic's xarray.pad calls (however grouped) give every requested "
+    "dimension its own (lower, upper) pair and the mode wrap/constant(+that axis' fill value)/edge, and nothing else touches the values; arguments not "
+    "given at all resolve like None; pad returns the input only when every width is (0, 0). This decides "
     "the resolution table and widths for all shapes and values structurally; xarray.pad itself is trusted."
 )
 LEVEL_NOTE = "Trusted: xarray.pad semantics. One recorded known finding (periodic given as a list leaves unlisted axes periodic) - see known_findings.json."
